@@ -13,6 +13,7 @@ from gpytorch import settings as S
 
 from pbt import gpmodel as G
 from pbt import kern
+from pbt import mtmodel as MT
 from pbt import priors_ref as PR
 from pbt.core import Ctx, Discard, PropertySpec, Subcheck
 
@@ -225,6 +226,127 @@ def run_mll(case, ctx: Ctx):
               *{f"prior={pr['pr']}" for h in _holders(case) + [case['mean'], case['lik']] for pr in (h.get('priors') or {}).values()})
 
 
+# ---------------------------------------------------------------------------------------------------
+# Kronecker multitask MLL (value and gradients w.r.t. the task factors / noises / data-kernel parameters)
+# ---------------------------------------------------------------------------------------------------
+@st.composite
+def multitask_mll_case(draw):
+    case = draw(MT.multitask_case(nmax=4, nsmax=1, test_batches=False))
+    case["singular_noise"] = MT.cell(case).endswith("singular")
+    return case
+
+
+def run_multitask_mll(case, ctx: Ctx):
+    t, n = case["t"], case["n"]
+    ctx.cls = f"multitask|{MT.cell(case)}"
+    X, y = T(case["X"]), T(case["y"])
+    with ctx.observing("build"):
+        model, lik = MT.build_multitask(case)
+        model.train()
+        lik.train()
+    # oracle from leaves: covar_factor, var (softplus), task noise parameters, data kernel parameters
+    case2 = copy.deepcopy(case)
+    leaves, mods = [], []
+
+    def leaf(holder, key, mod, rawname, lb):
+        v = T(holder[key])
+        if lb is None:
+            raw = v.clone().requires_grad_(True)
+            holder[key] = raw
+        else:
+            raw = inv_softplus(v - lb).requires_grad_(True)
+            holder[key] = softplus(raw) + lb
+        leaves.append(raw)
+        mods.append((mod, rawname, key))
+
+    leaf(case2["task"], "covar_factor", model.covar_module.task_covar_module, "covar_factor", None)
+    leaf(case2["task"], "var", model.covar_module.task_covar_module, "raw_var", 0.0)
+    lr = case2["lik"]
+    if lr["global"]:
+        leaf(lr, "noise", lik, "raw_noise", 1e-4)
+    if lr["task"]:
+        if lr["rank"] == 0:
+            leaf(lr, "task_noises", lik, "raw_task_noises", 1e-4)
+        else:
+            leaf(lr, "factor", lik, "task_noise_covar_factor", None)
+
+    def walk(r, mod):
+        if r["k"] == "Scale":
+            leaf(r["p"], "outputscale", mod, "raw_outputscale", 0.0)
+            walk(r["base"], mod.base_kernel)
+        elif r["k"] in ("Add", "Prod"):
+            for p_, sub in zip(r["parts"], mod.kernels):
+                walk(p_, sub)
+        else:
+            for pn in list(r["p"]):
+                leaf(r["p"], pn, mod, "raw_" + pn, 0.0)
+
+    walk(case2["kernel"], model.covar_module.data_covar_module)
+    Kxx = MT.kron(kern.ref_kernel(case2["kernel"], X, X), MT.ref_task_cov(case2))
+    mx = torch.stack([kern.ref_mean(m, X) for m in case2["means"]], -1).reshape(-1)
+    A = Kxx + MT.kron(torch.eye(n), MT.ref_task_noise(case2))
+    sv = torch.linalg.svdvals(A.detach())
+    kappa = float(sv[0] / sv[-1])
+    if not math.isfinite(kappa) or kappa > 1e8:
+        raise Discard("ill-conditioned (kappa>1e8)")
+    r = y.reshape(-1) - mx
+    total_w = -0.5 * ((r * torch.linalg.solve(A, r)).sum() + torch.linalg.slogdet(A)[1] + n * t * math.log(2 * math.pi)) / (n * t)
+    grads_w = torch.autograd.grad(total_w, leaves, allow_unused=True)
+    with ctx.observing("objective"):
+        mll = gpytorch.mlls.ExactMarginalLogLikelihood(lik, model)
+        got = mll(model(X), y)
+        params = [getattr(mod, rawname) for mod, rawname, _ in mods]
+        grads_g = torch.autograd.grad(got, params, allow_unused=True)
+    tol = max(G.chol_tol(kappa, kern.smooth_at_zero(case["kernel"])), 1e-9)
+    ctx.close("value", got, total_w.detach(), rtol=tol, atol=tol)
+    kink = at_kink(dict(case, kernel=case["kernel"]), X)
+    for (mod, rawname, key), gw, gg in zip(mods, grads_w, grads_g):
+        if kink and key == "lengthscale":
+            continue
+        gw = torch.zeros_like(getattr(mod, rawname)).reshape(-1) if gw is None else gw.reshape(-1)
+        gg = torch.zeros_like(getattr(mod, rawname)).reshape(-1) if gg is None else gg.reshape(-1)
+        if gw.numel() != gg.numel():
+            ctx.fail(f"grad.{key}", "shape", f"library raw parameter has {gg.numel()} elements, recipe {gw.numel()}")
+            continue
+        ctx.close(f"grad.{key}", gg, gw, rtol=max(tol, 1e-7), atol=max(tol, 1e-8) * max(1.0, kappa ** 0.5), scale=max(1.0, float(gw.abs().max())))
+    ctx.set_nontrivial(n >= 1)
+    ctx.label("multitask", f"t={t}", MT.cell(case), f"lrank={case['lik']['rank']}", f"global={case['lik']['global']}")
+
+
+# ---------------------------------------------------------------------------------------------------
+# SumMarginalLogLikelihood over an IndependentModelList = arithmetic mean of the members' MLLs
+# ---------------------------------------------------------------------------------------------------
+@st.composite
+def sum_mll_case(draw):
+    k = draw(st.integers(1, 3))
+    return {"members": [draw(G.exact_case(depth=1, nmax=4, nsmax=1, test_batches=False, model_batches=[[]], lik_kinds=("Gaussian", "FixedNoise"))) for _ in range(k)]}
+
+
+def run_sum_mll(case, ctx: Ctx):
+    ctx.cls = f"sum_mll|k{len(case['members'])}"
+    with ctx.observing("build"):
+        built = [G.build_exact(c) for c in case["members"]]
+        models = [m for m, _ in built]
+        ml = gpytorch.models.IndependentModelList(*models)
+        ml.train()
+    vals = []
+    for c in case["members"]:
+        X, y = T(c["X"]), T(c["y"])
+        v, A = dense_objective(c, X, y, "mll", torch.Size([]))
+        sv = torch.linalg.svdvals(A)
+        if float(sv[0] / sv[-1]) > 1e8:
+            raise Discard("ill-conditioned (kappa>1e8)")
+        vals.append(v / c["n"])
+    want = sum(vals) / len(vals)
+    with ctx.observing("objective"):
+        mll = gpytorch.mlls.SumMarginalLogLikelihood(ml.likelihood, ml)
+        out = ml(*ml.train_inputs)
+        got = mll(out, ml.train_targets)
+    ctx.close("value", got, want, rtol=1e-8, atol=1e-8)
+    ctx.set_nontrivial(len(case["members"]) >= 2)
+    ctx.label("sum_mll", f"k={len(case['members'])}")
+
+
 RULE = ("exact-GP recipe as in C01 (kernel trees, ARD/active_dims/batch, Gaussian / fixed-noise / fixed + learned noise) x prior "
         "assignment (each constrained parameter independently gets none or one of Normal, LogNormal, Gamma, HalfNormal, HalfCauchy, "
         "Uniform) x objective in {ExactMarginalLogLikelihood, LeaveOneOutPseudoLikelihood}; the oracle rebuilds the objective from raw "
@@ -233,6 +355,8 @@ RULE = ("exact-GP recipe as in C01 (kernel trees, ARD/active_dims/batch, Gaussia
 
 SUBCHECKS = [
     Subcheck("mll.value_and_grad", run_mll, strategy=mll_case, quick=1200, thorough=40000, min_shard=40),
+    Subcheck("mll.multitask", run_multitask_mll, strategy=multitask_mll_case, quick=500, thorough=15000, min_shard=40),
+    Subcheck("mll.sum", run_sum_mll, strategy=sum_mll_case, quick=300, thorough=8000, min_shard=40),
 ]
 
 SPEC = PropertySpec(
